@@ -8,6 +8,7 @@ import collections
 import glob
 import os
 import random
+import re
 import sys
 import time
 
@@ -581,7 +582,27 @@ def check_translated(prop, tier, seed, replay):
                                      open(os.path.join(vlib.REPO, 'compilation_errors', f)).read().split('\n'))
             violations.append([path, False])
             found_input = True
-        # 3c. generated clause lists, fate predicted by the model
+        # 3c. every documented statement / clause macro once, with the short aliases and with the prefixed names under
+        #     -DTROMPELOEIL_LONG_MACROS: all of them are legal and must compile
+        wd0 = tempfile.mkdtemp(prefix='farmfam_')
+        try:
+            ffails, nfam = farm.run_family(wd0, ('c++14', 'c++17', 'c++20'))
+            nprog += nfam
+            stats['macro_family_programs'] = nfam
+            for lv, lm, nm, src, err in ffails[:3]:
+                ndis += 1
+                first = re.findall(r'error: [^\n]*', err)[:4]
+                path = vlib.write_replay(prop, tier, seed, 'family-%s-%s-%s' % (lv, 'long' if lm else 'short', nm or 'all'),
+                                         ['verdict violation', 'a documented legal statement does not compile at -std=%s %s' % (
+                                             lv, 'with TROMPELOEIL_LONG_MACROS and the prefixed macro names' if lm else 'with the short macro names'),
+                                          ' | '.join(first)[:700],
+                                          'compile with: g++ -std=%s -fsyntax-only -I/repo/include -I/verif/harness/farm <this file>' % lv],
+                                         src.split('\n'))
+                violations.append([path, False])
+                found_input = True
+        finally:
+            shutil.rmtree(wd0, ignore_errors=True)
+        # 3d. generated clause lists, fate predicted by the model
         wd = tempfile.mkdtemp(prefix='farm_')
         try:
             rng = random.Random('%s-%s' % (seed, prop))
